@@ -34,27 +34,146 @@ def finish_args(c):
 EXTRA_ASSUME = {}
 
 
+MODES = ['Round05Up', 'RoundCeiling', 'RoundDown', 'RoundFloor', 'RoundHalfDown', 'RoundHalfEven', 'RoundHalfUp', 'RoundUp']
+
+
+def jnum(v):
+    a, m = abs(v), []
+    while a > 0:
+        m.append(a % 10000)
+        a //= 10000
+    return {'s': (v > 0) - (v < 0), 'm': m}
+
+
+def jdec(cf):
+    d = jnum(cf[0])
+    d['f'] = cf[1]
+    return d
+
+
+def grid(c, kind):
+    """TLC enumerates the grid (spec/GenGrid.tla); returns the decoded vectors"""
+    pay = c.generate('GenGrid', prefix='VEC', cfg='GenGrid_%s_%s' % (kind, c.tier))
+    return [json.loads(p) for p in pay]
+
+
+def run_vectors(c, calls, label):
+    traces = c.exec_vectors(calls, label, chunks=16 if len(calls) > 8000 else 4)
+    c.validate_many(traces, 'G:' + label)
+
+
+def g_bounds(c, ops, kind='bin', with_modes=False):
+    """all pairs of boundary-class operands; the operation rotates over `ops` so that every op meets every class"""
+    calls = []
+    vecs = grid(c, 'bounds')
+    if with_modes:
+        per = (len(vecs) + 7) // 8
+    for i, vv in enumerate(vecs):
+        if with_modes and i % per == 0:
+            calls.append({'ev': 'set', 't': 1, 'mode': MODES[i // per]})
+        op = ops[(i + i // len(ops)) % len(ops)]
+        if kind == 'bin':
+            calls.append({'ev': 'bin', 't': 1, 'op': op, 'x': vv['x'], 'y': vv['y'], 'xt': 'dec', 'yt': 'dec', 'n': 0, 'acc': 0, 'form': i % 4})
+        else:
+            calls.append({'ev': 'cmp', 't': 1, 'op': op, 'x': vv['x'], 'y': vv['y'], 'xt': 'dec', 'yt': 'dec'})
+    run_vectors(c, calls, 'bounds')
+
+
+def g_small(c, ops):
+    """all small operand tuples (x, y, n) under all eight modes; the operation rotates over `ops`"""
+    vecs = grid(c, 'small')
+    calls = []
+    for mi, mode in enumerate(MODES):
+        calls.append({'ev': 'set', 't': 1, 'mode': mode})
+        for i, (xc, xf, yc, yf, n) in enumerate(vecs):
+            op = ops[(i + mi) % len(ops)]
+            x, y = jdec((xc, xf)), jdec((yc, yf))
+            if op in ('round', 'checked_round'):
+                calls.append({'ev': 'un', 't': 1, 'op': op, 'x': x, 'n': n - 1})
+            elif op == 'fmt':
+                calls.append({'ev': 'fmt', 't': 1, 'x': x, 'fi': (i * 7) % 40, 'hasP': 1, 'p': n, 'hasW': i % 2, 'w': (i * 3) % 12})
+            else:
+                calls.append({'ev': 'bin', 't': 1, 'op': op, 'x': x, 'y': y, 'xt': 'dec', 'yt': 'dec', 'n': n, 'acc': 0, 'form': i % 4})
+    # every mode starts a fresh chunk boundary: exec_vectors splits evenly, so repeat the set event at chunk starts
+    run_vectors_with_modes(c, calls, 'small')
+
+
+def run_vectors_with_modes(c, calls, label):
+    """split into chunks that each start with the set event in force"""
+    nch = 16
+    per = (len(calls) + nch - 1) // nch
+    out, cur = [], None
+    chunks = []
+    for i, e in enumerate(calls):
+        if i % per == 0:
+            chunks.append([])
+            if cur is not None and e['ev'] != 'set':
+                chunks[-1].append(cur)
+        if e['ev'] == 'set':
+            cur = e
+        chunks[-1].append(e)
+    traces = []
+    for k, ch in enumerate(chunks):
+        traces += c.exec_vectors(ch, '%s%d' % (label, k), chunks=1)
+    c.validate_many(traces, 'G:' + label)
+
+
 def plan_C01(c):
+    c.mc('MC_BigInt')
+    c.mc('MC_Refine', cfg='MC_Refine_ok' if c.tier == 'quick' else 'MC_Refine_ok_full')
+    g_bounds(c, ['add', 'sub', 'checked_add', 'checked_sub'])
     v(c, 'c01', 6000, 200000)
 
 
 def plan_C02(c):
+    c.mc('MC_SpecLaws', cfg='MC_SpecLaws' if c.tier != 'quick' else 'MC_SpecLaws_quick')
+    c.mc('MC_Refine', cfg='MC_Refine_halfdown_tie', expect='violation')
+    g_small(c, ['mul', 'checked_mul'])
+    g_bounds(c, ['mul', 'checked_mul'], with_modes=True)
     v(c, 'c02', 5000, 150000)
 
 
 def plan_C03(c):
+    c.mc('MC_SpecLaws', cfg='MC_SpecLaws' if c.tier != 'quick' else 'MC_SpecLaws_quick')
+    g_small(c, ['div', 'checked_div'])
+    if c.tier != 'quick':
+        g_bounds(c, ['div', 'checked_div'], with_modes=True)
     v(c, 'c03', 4000, 120000)
 
 
 def plan_C04(c):
+    c.mc('MC_Refine', cfg='MC_Refine_ok' if c.tier == 'quick' else 'MC_Refine_ok_full')
+    c.mc('MC_Refine', cfg='MC_Refine_trunc_first', expect='violation')      # the double rounding of finding F2 must be rejected
+    g_small(c, ['div_rounded', 'mul_rounded', 'quantize'])
     v(c, 'c04', 5000, 150000)
 
 
 def plan_C05(c):
+    c.mc('MC_SpecLaws', cfg='MC_SpecLaws' if c.tier != 'quick' else 'MC_SpecLaws_quick')
+    c.mc('MC_Refine', cfg='MC_Refine_halfdown_tie', expect='violation')
+    # the kernel grid: every (n, d) x 8 modes x sign of d
+    calls = []
+    for n, d in grid(c, 'kernel'):
+        for mode in MODES:
+            for sg in (1, -1):
+                calls.append({'ev': 'kern', 't': 1, 'x': jnum(n), 'y': jnum(sg * d), 'mode': mode})
+    run_vectors(c, calls, 'kernel')
+    g_small(c, ['round', 'checked_round'])
     v(c, 'c05', 6000, 200000)
 
 
+ALPHABET = [[48], [49], [53], [57], [46], [101], [69], [43], [45], [32], [120], [95], [195, 169]]
+
+
 def plan_C06(c):
+    # all strings over the class alphabet up to the length bound, enumerated by TLC
+    calls = []
+    forms = ['from_str', 'try_from_str', 'try_from_string', 'from_str_radix']
+    calls.append({'ev': 'parse', 't': 1, 'form': 'from_str', 'radix': 10, 'bs': []})
+    for i, idx in enumerate(grid(c, 'strings')):
+        bs = [b for k in idx for b in ALPHABET[k - 1]]
+        calls.append({'ev': 'parse', 't': 1, 'form': forms[i % 4], 'radix': 10, 'bs': bs})
+    run_vectors(c, calls, 'strings')
     v(c, 'c06', 3000, 80000)
 
 
@@ -63,23 +182,32 @@ def plan_C07(c):
 
 
 def plan_C08(c):
+    c.mc('MC_SpecLaws', cfg='MC_SpecLaws' if c.tier != 'quick' else 'MC_SpecLaws_quick')
+    c.mc('MC_Refine', cfg='MC_Refine_cmp_sign', expect='violation')
+    g_bounds(c, ['eq', 'ne', 'lt', 'le', 'gt', 'ge', 'cmp', 'partial_cmp', 'min', 'max'], kind='cmp')
     v(c, 'c08', 5000, 200000)
     v(c, 'c08a', 2000, 60000)
 
 
 def plan_C09(c):
+    c.mc('MC_SpecLaws', cfg='MC_SpecLaws' if c.tier != 'quick' else 'MC_SpecLaws_quick')
     v(c, 'c09', 5000, 150000)
 
 
 def plan_C10(c):
+    c.mc('MC_Refine', cfg='MC_Refine_rem_loop', expect='violation')
+    g_bounds(c, ['rem', 'checked_rem'])
+    g_small(c, ['rem', 'checked_rem'])
     v(c, 'c10', 6000, 200000)
 
 
 def plan_C11(c):
+    g_small(c, ['fmt'])
     v(c, 'c11', 4000, 120000)
 
 
 def plan_C12(c):
+    c.mc('MC_BigInt')
     v(c, 'c12', 2500, 80000)
 
 
@@ -92,10 +220,13 @@ def plan_C14(c):
 
 
 def plan_C15(c):
+    c.mc('MC_SpecLaws', cfg='MC_SpecLaws' if c.tier != 'quick' else 'MC_SpecLaws_quick')
     v(c, 'c15', 6000, 200000)
 
 
 def plan_C16(c):
+    c.mc('MC_Knuth', cfg='MC_Knuth_ok' if c.tier == 'quick' else 'MC_Knuth_ok_w4')
+    c.mc('MC_Knuth', cfg='MC_Knuth_f1', expect='violation')     # the sign fix-up of finding F1 must be rejected
     v(c, 'c16', 4000, 120000)
 
 
